@@ -68,8 +68,9 @@ def needleman_wunsch(s1, s2, window=None, max_dist=None,
     """
     if substitution is None:
         substitution = _default_substitution_fn
+    gap = getattr(substitution, 'gap', 1)
     value, scores, paths = dp(s1, s2,
-                       fn=substitution, border=_needleman_wunsch_border,
+                       fn=substitution, border=lambda ri, ci: gap * _needleman_wunsch_border(ri, ci),
                        penalty=0, window=window, max_dist=max_dist,
                        max_step=max_step, max_length_diff=max_length_diff, psi=psi)
     return -value, -scores, paths
@@ -129,6 +130,7 @@ def make_substitution_fn(matrix, gap=1, opt='max'):
         else:
             return _default_substitution_fn(a, b)[0], gap
 
+    _unwrap.gap = gap
     return _unwrap
 
 
